@@ -48,6 +48,32 @@ def alias_of(t, roots):
     return None
 
 
+def held_by_helper(t, roots, stores=(), depth=0):
+    """the place is reached through (a field of) the result of a crate call that received one of the buffer roots: a holder
+    value (cursor / appender struct) built from the buffer by a helper.  `stores`: the local stores of the paths from the
+    function entry, to look a named holder local up."""
+    from pat import access_path, unwrap_ok
+    r = t
+    for _ in range(6):
+        r, _c = unwrap_ok(deref_all(r))
+        r2, st2 = access_path(r)
+        if is_call(r2, 'Try::branch') and r2[2]:
+            r2 = r2[2][0]
+        if r2 == r:
+            break
+        r = r2
+    r = deref_all(r)
+    if r[0] in ('init', 'hav') and isinstance(r[1], int) and depth < 2:
+        for stv in stores:
+            v = stv.get(('L', r[1]))
+            if isinstance(v, tuple) and v != r and held_by_helper(v, roots, stores, depth + 1):
+                return True
+        return False
+    if r[0] != 'call' or not r[2]:
+        return False
+    return any(isinstance(a, tuple) and alias_of(a, roots) is not None for a in r[2])
+
+
 class BufferAnalysis:
     def __init__(self, ctx):
         self.ctx = ctx
@@ -586,6 +612,7 @@ def r17_5(ctx, run, rule='R17.5'):
             paths.extend(ex.explore(start=s, stop=set(loops)))
         pushes = 0
         bad = None
+        unknown = None
         # the offsets vector: a `&mut Vec<u64>` parameter (pushes into locally built vectors are not offset reports)
         off_params = {i for i in range(1, b.argc + 1) if 'Vec<u64>' in str(b.local_ty(i).get('s', ''))}
         def is_offsets_push(e):
@@ -605,6 +632,12 @@ def r17_5(ctx, run, rule='R17.5'):
                     val = strip_casts(e[2][1])
                     pushes += 1
                     if not (val[0] == 'call' and called(val[1], 'Vec::len') and alias_of(val[2][0], roots) is not None):
+                        if val[0] == 'call' and called(val[1], 'Vec::len') and val[2] and held_by_helper(val[2][0], roots, [q_.store for q_ in paths if q_.blocks and q_.blocks[0] == 0]):
+                            # the buffer was handed to a helper that returned a value holding it (a cursor / appender struct): the length of
+                            # a Vec reached through that value may well be the buffer's; which Vec it is is not read here
+                            unknown = (e, f'pushed value {show(val)[:80]} is the length of a buffer reached through a value that a helper built from the output buffer: '
+                                          'whether that is the output buffer, taken after the item bytes, is not decided')
+                            continue
                         bad = (e, f'pushed value {show(val)[:80]} is not the length of the data buffer')
                         continue
                     # no append on the buffer between the len() snapshot and the push
@@ -633,6 +666,9 @@ def r17_5(ctx, run, rule='R17.5'):
         elif bad:
             t = bad[0][5]
             run.violation(rule, p, 'offsets', bad[1], f"{t.get('file')}:{t.get('line')}")
+        elif unknown:
+            t = unknown[0][5]
+            run.undecided(rule, p, 'offsets', unknown[1], f"{t.get('file')}:{t.get('line')}")
         else:
             run.proved(rule, p, 'offsets', f'{pushes} push site(s): data.len() taken after the item bytes', loc)
     run.floor(rule, 'selector result writers', n, 3)
